@@ -133,6 +133,11 @@ func genTypedNN(r *hx.Rand, t string, depth int, bad bool) string {
 		}
 		var items []string
 		for i := 0; i < n; i++ {
+			if i != badAt && r.Chance(1, 6) {
+				// a null item: fine in [T], an error in [T!] — the position where the two differ
+				items = append(items, "null")
+				continue
+			}
 			items = append(items, genTyped(r, inner, depth, i == badAt))
 		}
 		return "[" + strings.Join(items, ","+ws(r)) + "]"
@@ -172,6 +177,19 @@ func genTypedNN(r *hx.Rand, t string, depth int, bad bool) string {
 		return genAny(r, 3)
 	case "In":
 		return genIn(r, depth, bad)
+	case "Box":
+		var items []string
+		if !bad || r.Bool() {
+			items = append(items, `"req":`+ws(r)+genTyped(r, "[Color]", depth, false))
+		}
+		if r.Bool() {
+			items = append(items, `"items":`+genTyped(r, "[In!]", depth-1, bad && len(items) > 0))
+		}
+		if r.Chance(1, 3) {
+			items = append(items, `"deep":`+genTyped(r, "[[Color]!]", depth, false))
+		}
+		hx.Shuffle(r, items)
+		return "{" + strings.Join(items, ","+ws(r)) + "}"
 	}
 	panic("unknown type " + t)
 }
@@ -484,6 +502,88 @@ var querySelGens = []selGen{
 	},
 }
 
+var colorListLits = []string{"[RED, BLUE]", "[RED, null]", "[]", "null", "GREEN", "[null]"}
+var inListLits = []string{"[{a: 1}, {b: \"z\"}]", "[{a: 1}, null]", "[]", "null", "{a: 2}"}
+
+func init() {
+	withNullArg := func(r *hx.Rand, s *Sel, nv func(string) string) string {
+		switch r.Intn(3) {
+		case 0:
+			return ""
+		default:
+			return "(withNull: " + argOrVar(r, s, nv, "Boolean", []string{"true", "false"}, nil) + ")"
+		}
+	}
+	querySelGens = append(querySelGens,
+		func(r *hx.Rand, a string, nv func(string) string) Sel {
+			s := Sel{}
+			f := hx.Pick(r, []string{"itemsA", "itemsB"})
+			s.Text = a + ": " + f + withNullArg(r, &s, nv) + " { id name }"
+			return s
+		},
+		func(r *hx.Rand, a string, nv func(string) string) Sel {
+			s := Sel{}
+			s.Text = a + ": grid" + withNullArg(r, &s, nv) + " { id n }"
+			return s
+		},
+		func(r *hx.Rand, a string, nv func(string) string) Sel {
+			s := Sel{}
+			s.Text = a + ": " + hx.Pick(r, []string{"palette", "paletteB"}) + withNullArg(r, &s, nv)
+			return s
+		},
+		func(r *hx.Rand, a string, nv func(string) string) Sel {
+			s := Sel{}
+			switch r.Intn(5) {
+			case 0:
+				s.Text = a + ": paint"
+			case 1:
+				s.Text = a + ": paintB"
+			case 2:
+				s.Text = a + ": paint(colors: " + argOrVar(r, &s, nv, "[Color!]", colorListLits, []string{"[RED]"}) + ")"
+			case 3:
+				s.Text = a + ": paintB(colors: " + argOrVar(r, &s, nv, "[Color]!", colorListLits, []string{"[RED, null]"}) + ")"
+			default:
+				// the variable's declared type is the other chain: allowed or not depending on the position's type
+				f := hx.Pick(r, []string{"paint", "paintB"})
+				s.Text = a + ": " + f + "(colors: " + argOrVar(r, &s, nv, hx.Pick(r, []string{"[Color!]", "[Color]!", "[Color!]!", "[Color]"}), colorListLits, nil) + ")"
+			}
+			return s
+		},
+		func(r *hx.Rand, a string, nv func(string) string) Sel {
+			s := Sel{}
+			switch r.Intn(4) {
+			case 0:
+				s.Text = a + ": " + hx.Pick(r, []string{"insA", "insB"})
+			case 1:
+				s.Text = a + ": insA(ins: " + argOrVar(r, &s, nv, "[In!]", inListLits, nil) + ")"
+			case 2:
+				s.Text = a + ": insB(ins: " + argOrVar(r, &s, nv, "[In]!", inListLits, nil) + ")"
+			default:
+				f := hx.Pick(r, []string{"insA", "insB"})
+				s.Text = a + ": " + f + "(ins: " + argOrVar(r, &s, nv, hx.Pick(r, []string{"[In!]", "[In]!", "[In]"}), inListLits, nil) + ")"
+			}
+			return s
+		},
+		func(r *hx.Rand, a string, nv func(string) string) Sel {
+			s := Sel{}
+			s.Text = a + ": echoBox(box: " + argOrVar(r, &s, nv, "Box", []string{"{req: [RED, null]}", "{req: []}", "{}", "{req: null}", "{req: [BLUE], items: [{a: 1}]}", "{req: [RED], items: [null]}", "{req: RED, deep: [[RED, null], []]}", "{req: [], deep: [null]}"}, nil) + ")"
+			return s
+		},
+		func(r *hx.Rand, a string, nv func(string) string) Sel {
+			s := Sel{}
+			f := hx.Pick(r, []string{"gatedB", "gatedAB", "gatedAB"})
+			if f == "gatedAB" && r.Bool() {
+				f += "(x: " + argOrVar(r, &s, nv, "Int", intLits, nil) + ")"
+			}
+			s.Text = a + ": " + f
+			return s
+		},
+		func(r *hx.Rand, a string, nv func(string) string) Sel {
+			return Sel{Text: "introspection_" + a + `: __type(name: "` + hx.Pick(r, []string{"Query", "Box", "Thing"}) + `") { fields { name args { name type { ...T } } type { ...T } } inputFields { name type { ...T } } }`, Vars: nil}
+		},
+	)
+}
+
 var mutationSelGens = []selGen{
 	func(r *hx.Rand, a string, nv func(string) string) Sel {
 		s := Sel{}
@@ -509,6 +609,39 @@ var mutationSelGens = []selGen{
 }
 
 var opNames = []string{"Q", "Op2", "Müller", "Q_", "query", "A"}
+
+// genVars draws values for the variables a document declares (nil = no `variables` at all).
+func genVars(r *hx.Rand, q QSpec) *string {
+	var decls []VarDecl
+	for _, op := range q.Ops {
+		for _, s := range op.Sels {
+			decls = append(decls, s.Vars...)
+		}
+	}
+	badVar := -1
+	if len(decls) > 0 && r.Chance(1, 8) {
+		badVar = r.Intn(len(decls))
+	}
+	var members []string
+	for i, d := range decls {
+		if i != badVar && r.Chance(1, 8) {
+			continue // not supplied
+		}
+		members = append(members, jstr(d.Name)+ws(r)+":"+ws(r)+genTyped(r, d.Type, 2, i == badVar))
+	}
+	if r.Chance(1, 8) {
+		members = append(members, `"undeclared":`+genAny(r, 2))
+	}
+	hx.Shuffle(r, members)
+	if len(members) > 0 || r.Chance(1, 4) {
+		v := "{" + ws(r) + strings.Join(members, ","+ws(r)) + "}"
+		if len(members) == 0 && r.Chance(1, 3) {
+			v = "null"
+		}
+		return &v
+	}
+	return nil
+}
 
 // genOp builds one operation case: the document, an operation name and variable values.
 func genOp(r *hx.Rand) (QSpec, Op) {
@@ -571,36 +704,7 @@ func genOp(r *hx.Rand) (QSpec, Op) {
 	q.Prefix = hx.Pick(r, []string{"", "", "", "# comment ü\n", "\n\n  ", "\ufeff", "# c1\r\n# c2\r\n"})
 	q.NL = hx.Pick(r, []string{"\n", "\n", "\r\n", " ", ", "})
 
-	// variable values
-	var decls []VarDecl
-	for _, op := range q.Ops {
-		for _, s := range op.Sels {
-			decls = append(decls, s.Vars...)
-		}
-	}
-	badVar := -1
-	if len(decls) > 0 && r.Chance(1, 8) {
-		badVar = r.Intn(len(decls))
-	}
-	var members []string
-	for i, d := range decls {
-		if i != badVar && r.Chance(1, 8) {
-			continue // not supplied
-		}
-		members = append(members, jstr(d.Name)+ws(r)+":"+ws(r)+genTyped(r, d.Type, 2, i == badVar))
-	}
-	if r.Chance(1, 8) {
-		members = append(members, `"undeclared":`+genAny(r, 2))
-	}
-	hx.Shuffle(r, members)
-	op := Op{}
-	if len(members) > 0 || r.Chance(1, 4) {
-		v := "{" + ws(r) + strings.Join(members, ","+ws(r)) + "}"
-		if len(members) == 0 && r.Chance(1, 3) {
-			v = "null"
-		}
-		op.Vars = &v
-	}
+	op := Op{Vars: genVars(r, q)}
 	// operation name
 	var names []string
 	for _, o := range q.Ops {
